@@ -46,12 +46,13 @@ ASSUMPTIONS = [
 ]
 
 POOL = [dop("u8", dct_std("A_UINT32", 8)), dop("u16", dct_std("A_UINT32", 16)),
-        dop("u4", dct_std("A_UINT32", 4)),
+        dop("u4", dct_std("A_UINT32", 4)), dop("u1", dct_std("A_UINT32", 1)),
         dop("mm", dct_minmax("A_BYTEFIELD", 0, 4, "END-OF-PDU")),
         {"t": "STRUCT", "name": "item", "params": [p_value("a", "u8"), p_value("b", "u8")]},
         {"t": "EOPFIELD", "name": "eop", "struct": "item", "min": None, "max": None}]
 
-SHAPES = ["c", "cc", "ccc", "cv", "cvv", "ccv", "cvc", "c+eop", "c+mm", "v", "c4v4", "c-second"]
+SHAPES = ["c", "cc", "ccc", "cv", "cvv", "ccv", "cvc", "c+eop", "c+mm", "v", "c4v4", "c-second",
+          "cc7v1", "v4c4"]
 
 
 def build_request(name: str, shape: str, consts: List[int]) -> Dict[str, Any]:
@@ -79,6 +80,15 @@ def build_request(name: str, shape: str, consts: List[int]) -> Dict[str, Any]:
     elif shape == "c4v4":
         ps = [p_const("hi", dct_std("A_UINT32", 4), c0 >> 4, byte=0, bit=4),
               p_value("lo", "u4", byte=0, bit=0), p_value("v1", "u8", byte=1)]
+    elif shape == "cc7v1":
+        # the sub-function byte of UDS: seven constant bits and one flag chosen by the user;
+        # the constant prefix ends in front of that byte
+        ps = [u8const("sid", c0), p_const("sub", dct_std("A_UINT32", 7), c1 & 0x7F, byte=1, bit=0),
+              p_value("spr", "u1", byte=1, bit=7), p_value("v1", "u8", byte=2)]
+    elif shape == "v4c4":
+        # constant low nibble, free high nibble: no constant byte at all
+        ps = [p_const("lo", dct_std("A_UINT32", 4), c0 & 0x0F, byte=0, bit=0),
+              p_value("hi", "u4", byte=0, bit=4), p_value("v1", "u8", byte=1)]
     elif shape == "c-second":
         ps = [u8const("sub", c1, byte=1), u8const("sid", c0, byte=0), p_value("v1", "u8", byte=2)]
     else:
